@@ -23,6 +23,8 @@ rule("C12.c", "limits follow the actual step: a rate is multiplied by the step-l
               "nominal step", floor=4)
 rule("C19.d", "dt is (difference of successive time points) / (one main time unit), i.e. of time degree 1; the discount exponent is "
               "dimensionless", floor=2, props=["C19", "C12"])
+rule("C12.e", "a duration / rate in main time units is never compared with a pure number: thresholds use the value converted to "
+              "grid steps", floor=1, props=["C12", "C06"])
 rule("C08.e", "the take right-hand side is value / period length x covered step lengths (time degree 0)", floor=1)
 
 C02_CLASSES = ("Storage", "SimpleContract", "Contract", "Transport", "ExtendedTransport", "MultiCommodityContract")
@@ -44,7 +46,7 @@ def _verdict(vals, want_t, want_d):
     return True, []
 
 
-@analysis("degrees", ["C12.a", "C02.a", "C02.b", "C12.c", "C19.d", "C08.e"])
+@analysis("degrees", ["C12.a", "C02.a", "C02.b", "C12.c", "C19.d", "C08.e", "C12.e"])
 def run(ctx):
     p = ctx.p
     summaries = {}
@@ -75,6 +77,7 @@ def run(ctx):
             extra.append((f.cls, f, FnDegrees(p, f, f.cls, None, summaries, inline=False)))
 
     n_sinks = 0
+    n_thr = [0]
     for ci, fn, fd in analyses + extra:
         cname = ci.name if ci is not None else ""
         for kind, node, vals, desc in fd.all_sinks():
@@ -113,6 +116,12 @@ def run(ctx):
                 ctx.note("C02.b", where_fn, cons, "cost terms of %s are not (all) discounted: %s (outside the classes C02 names)" % (cname, show(vals)), node=node)
         for where, x, y in fd.conflicts():
             where_fn = p.enclosing_fn(where) or fn
+            if x == ("threshold",):
+                n_thr[0] += 1
+                ctx.ob("C12.e", where_fn, "dimensioned threshold: %s" % au.short(where, 70), False,
+                       "a quantity of degree %s (a duration / rate in main time units) is compared with a pure number: the outcome depends "
+                       "on the main time unit and the grid frequency - the value converted to grid steps has to be used" % show1(y), node=where)
+                continue
             if x == ("exponent",):
                 ctx.ob("C19.d", where_fn, au.short(where, 80), False,
                        "the exponent of the discount factor has degree %s: elapsed time must be converted from main time units to the "
@@ -125,6 +134,7 @@ def run(ctx):
                 ctx.ob("C02.a", where_fn, "mixed degrees: %s" % au.short(where, 70), False,
                        "quantities of degree %s and %s are added / stored into one vector" % (show1(x), show1(y)), node=where)
     ctx.require(n_sinks >= 25, "fewer than 25 degree sinks found (c / l / u / b / disp_factor)")
+    ctx.ob("C12.e", "package", "thresholds in set-up code", True, ok_detail="no dimensioned quantity is compared with a pure number (other than 0)")
     # exponent of set_wacc holds when no conflict was raised
     sw = p.fn_opt("Timegrid.set_wacc")
     if sw is not None:
@@ -160,14 +170,25 @@ def run(ctx):
         for st in au.walk_stmts(fn.body):
             if isinstance(st, ast.Assign) and isinstance(st.value, ast.BinOp) and isinstance(st.value.op, ast.Mult):
                 sides = [st.value.left, st.value.right]
-                dts = [s for s in sides if (isinstance(s, ast.Attribute) and s.attr == "dt") or (isinstance(s, ast.Name) and s.id == "dt")
-                       or (isinstance(s, ast.Subscript) and ((isinstance(s.value, ast.Name) and s.value.id == "dt") or (isinstance(s.value, ast.Attribute) and s.value.attr == "dt")))]
+                ffn = ctx.flow(fn)
+
+                def is_dt(x, st=st, ffn=ffn):
+                    """the step-length vector: <grid>.dt, or a local bound to it (never recognised by its name)"""
+                    if isinstance(x, ast.Attribute):
+                        return x.attr == "dt"
+                    if isinstance(x, ast.Name):
+                        ds = [d for d in ffn.defs(x.id, st) if d.kind == "assign" and d.value is not None]
+                        return bool(ds) and all(isinstance(d.value, ast.Attribute) and d.value.attr == "dt" for d in ds)
+                    return False
+                dts = [s for s in sides if is_dt(s) or (isinstance(s, ast.Subscript) and is_dt(s.value))]
                 if dts:
                     d = dts[0]
                     whole = not (isinstance(d, ast.Subscript) and au.const_num(d.slice) is not None)
                     restricted = True
                     if isinstance(d, ast.Attribute):
                         restricted = "restricted" in (au.dotted(d) or "")
+                    elif isinstance(d, ast.Name):
+                        restricted = all("restricted" in (au.dotted(x.value) or "") for x in ffn.defs(d.id, st) if x.kind == "assign")
                     anchors.append((fn, st, whole and restricted))
     for fn, st, ok in anchors:
         ctx.ob("C12.c", fn, au.short(st, 70), ok,
